@@ -28,6 +28,7 @@ Definition tid_code (t : tid) : nat :=
   | TUrlDecode => 14 | TUrlEncode => 15 | TCmdLine => 16 | TRemoveCommentsChar => 17
   | TReplaceComments => 18 | TEscapeSeqDecode => 19 | TCompressWhitespace => 20
   | TRemoveWhitespace => 21 | TUtf8ToUnicode => 22
+  | _ => 99          (* transformations added to Transform.v later are not used by this harness *)
   end.
 Definition ctf_code (c : ctf) : nat :=
   match c with CT t => tid_code t | CFail n => 100 + n | CId n => 200 + n | CBang => 300 end.
